@@ -232,9 +232,12 @@ Proof.
   assert (HE' : (E * P + m) / P = E) by (symmetry; apply Z.div_unique with m; lia).
   assert (Hm' : (S * (Q * P) + E * P + m) mod P = m).
   { symmetry. apply Z.mod_unique with (S * Q + E); [left; lia | lia]. }
-  repeat split; try nia; try assumption.
-  all: destruct HS as [-> | ->]; destruct (Z.leb_spec (Q * P) (0 * (Q * P) + E * P + m));
-    destruct (Z.leb_spec (Q * P) (1 * (Q * P) + E * P + m)); try reflexivity; try nia.
+  clearbody P Q. clear HQP Hfb Hok.
+  split; [|split; [assumption | split; [assumption|]]].
+  - destruct HS as [-> | ->]; split; nia.
+  - destruct HS as [-> | ->].
+    + destruct (Z.leb_spec (Q * P) (0 * (Q * P) + E * P + m)); [nia | reflexivity].
+    + destruct (Z.leb_spec (Q * P) (1 * (Q * P) + E * P + m)); [reflexivity | nia].
 Qed.
 
 (* ================= model primitives = spec fields ================= *)
@@ -258,14 +261,26 @@ Proof.
   apply testbit_top; [lia|]. replace (fbits F - 1 + 1) with (fbits F) by lia. lia.
 Qed.
 
+Lemma nan_core P Q E m : 2 <= P -> 4 <= Q -> 0 <= E < Q -> 0 <= m < P ->
+  ((Q - 1) * P <? E * P + m) = ((E =? Q - 1) && negb (m =? 0)).
+Proof.
+  intros. destruct (Z.ltb_spec ((Q - 1) * P) (E * P + m));
+    destruct (Z.eqb_spec E (Q - 1)); destruct (Z.eqb_spec m 0); cbn; try reflexivity; nia.
+Qed.
+
+Lemma inf_core P Q E m : 2 <= P -> 4 <= Q -> 0 <= E < Q -> 0 <= m < P ->
+  (E * P + m =? (Q - 1) * P) = ((E =? Q - 1) && (m =? 0)).
+Proof.
+  intros. destruct (Z.eqb_spec (E * P + m) ((Q - 1) * P));
+    destruct (Z.eqb_spec E (Q - 1)); destruct (Z.eqb_spec m 0); cbn; try reflexivity; nia.
+Qed.
+
 Lemma is_nan_spec F x : fmt_ok F -> 0 <= x < 2 ^ fbits F -> f_is_nan F x = f_nan F x.
 Proof.
   intros Hok Hx. destruct (f_decomp F x Hok Hx) as (S & HS & Hxe & HE & Hm & Hs & Ha).
   destruct (fmt_pows F Hok) as (HP & HQ & HQP & Hfb & HME & _ & Hinf & _).
   unfold f_is_nan, f_abs_bits, f_nan, E_max. rewrite Ha, Hinf.
-  set (P := 2 ^ (fp F - 1)) in *. set (Q := 2 ^ ebits F) in *.
-  destruct (Z.ltb_spec ((Q - 1) * P) (f_E F x * P + f_m F x));
-    destruct (Z.eqb_spec (f_E F x) (Q - 1)); destruct (Z.eqb_spec (f_m F x) 0); cbn; try reflexivity; nia.
+  apply nan_core; assumption.
 Qed.
 
 Lemma is_infinite_spec F x : fmt_ok F -> 0 <= x < 2 ^ fbits F -> f_is_infinite F x = f_inf F x.
@@ -273,9 +288,7 @@ Proof.
   intros Hok Hx. destruct (f_decomp F x Hok Hx) as (S & HS & Hxe & HE & Hm & Hs & Ha).
   destruct (fmt_pows F Hok) as (HP & HQ & HQP & Hfb & HME & _ & Hinf & _).
   unfold f_is_infinite, f_abs_bits, f_inf, E_max. rewrite Ha, Hinf.
-  set (P := 2 ^ (fp F - 1)) in *. set (Q := 2 ^ ebits F) in *.
-  destruct (Z.eqb_spec (f_E F x * P + f_m F x) ((Q - 1) * P));
-    destruct (Z.eqb_spec (f_E F x) (Q - 1)); destruct (Z.eqb_spec (f_m F x) 0); cbn; try reflexivity; nia.
+  apply inf_core; assumption.
 Qed.
 
 Lemma u_shl_one mb i : 0 <= i < mb -> u_shl mb 1 i = 2 ^ i.
@@ -689,4 +702,15 @@ Proof.
       destruct (Z.ltb_spec (f_trunc F x) 0); [lia|].
       destruct (Z.leb_spec (Mod w n) (f_trunc F x)); destruct (Z.ltb_spec (f_trunc F x) (- (Mod w n / 2)));
         destruct (Z.leb_spec (Mod w n / 2) (f_trunc F x)); lia.
+Qed.
+
+(* ================= the pinned (pre-fix) float -> unsigned cast violates the specification ================= *)
+
+(* 0.75f64 = 0x3fe8000000000000: the old code returns 1, truncation toward zero gives 0 *)
+Theorem float_to_int_refuted :
+  exists x r, 0 <= x < 2 ^ fbits F64 /\ cast_uint_from_float_prefix true F64 64 2 x = Ret r /\
+              uval 64 r <> float_to_U_spec F64 (Mod 64 2) x.
+Proof.
+  exists 0x3fe8000000000000, [1; 0]. split; [vm_compute; split; [discriminate | reflexivity]|].
+  split; [vm_compute; reflexivity|]. vm_compute. discriminate.
 Qed.
